@@ -191,7 +191,55 @@ def spec_view(ctx, cfg, tokens):
     line = ctx.driver.ask(['spec %d %s' % (1 if cfg.get('rr') else 0, ' '.join(tokens))])[0]
     if line.startswith('impossible@') or line.startswith('bad-op@'):
         return None, line
-    return [x for x in line.split('|') if x], None
+    return relocate_expected(cfg, [x for x in line.split('|') if x]), None
+
+
+RR_MOVED_HEX = b'RR_MOVED'.hex()
+RR_MOVED_RR_HEX = b'rr_moved'.hex()
+
+
+def relocate_expected(cfg, entries):
+    """Rock Ridge deep-directory relocation (RRIP 4.1.5, pycdlib.add_directory): with Rock Ridge and no enhanced volume
+    descriptor, a directory whose ISO9660 path has 8, 16, ... components is recorded under /RR_MOVED; its place keeps a
+    placeholder record (a zero-length "file" with a CL entry), and /RR_MOVED shows up in the Rock Ridge tree as rr_moved.
+    The specification speaks about logical paths; this maps its ISO9660 view to the physical one the standard prescribes.
+    (Joliet and UDF have no depth limit and are untouched; the Rock Ridge view stays logical.)"""
+    if not cfg.get('rr') or cfg.get('ilevel', 1) >= 4:
+        return entries
+    dirs = []
+    for e in entries:
+        f = e.split(':')
+        if f[0] == 'I' and f[1] == 'D':
+            comps = [c for c in f[2].split('/') if c]
+            if comps and len(comps) % 8 == 0:
+                dirs.append(f[2])
+    if not dirs:
+        return entries
+    names = [d.rsplit('/', 1)[1] for d in dirs]
+    if len(set(names)) != len(names) or RR_MOVED_HEX in {e.split(':')[2].strip('/') for e in entries if e.startswith('I:')}:
+        # pycdlib numbers colliding names inside RR_MOVED in creation order, which the view does not carry
+        return entries + ['X:relocation-name-collision:']
+    out = []
+    # longest logical prefixes first, so nested relocations (depth 16 under depth 8) map to their own RR_MOVED entry
+    order = sorted(dirs, key=lambda d: -len(d))
+
+    def phys(path):
+        for d in order:
+            if path == d or path.startswith(d + '/'):
+                return '/' + RR_MOVED_HEX + '/' + d.rsplit('/', 1)[1] + path[len(d):]
+        return path
+    for e in entries:
+        f = e.split(':')
+        if f[0] != 'I':
+            out.append(e)
+            continue
+        if f[1] == 'D' and f[2] in dirs:
+            out.append('I:P:%s' % f[2])                 # the placeholder left at the logical place
+        f[2] = phys(f[2])
+        out.append(':'.join(f))
+    out.append('I:D:/%s:h0' % RR_MOVED_HEX)
+    out.append('R:D:/%s' % RR_MOVED_RR_HEX)
+    return out
 
 
 def replay_obj(c):
